@@ -18,6 +18,7 @@ viol   = impl ≠ ref   (the property itself, decided without Lean; tags reeval-
 """
 import atexit
 import hashlib
+import io
 import os
 import shutil
 import tempfile
@@ -33,7 +34,7 @@ ID = "C04"
 LEAN_TARGETS = ["RV.C04.Props", "RV.C04.Audit"]
 AUDIT = "RV/C04/Audit.lean"
 DRIVER = "drv_c04"
-CASES = {"quick": 1200, "thorough": 40000, "search": 20000}
+CASES = {"quick": 1000, "thorough": 40000, "search": 20000}
 RULE = ("random SELECT / ASK / CONSTRUCT queries (group nesting depth ≤ 4 quick, ≤ 6 thorough; BGP, joins of groups, "
         "OPTIONAL with and without filter, UNION, MINUS, FILTER with comparison / logical / bound / EXISTS / NOT EXISTS, "
         "BIND, VALUES, sub-SELECT, GRAPH; 4 shared variables) over random datasets (3-12 default-graph triples over ~8 "
@@ -83,7 +84,154 @@ def gen_case(rng, tier, i):
     _GENERATED.append(G.to_sparql(q))
     # the SAME prepared query is evaluated again after the data changed in place (ds2) and on another
     # Graph / Dataset object with the same graph names (ds3)
-    return {"ds": ds, "q": q, "ds2": G.mutate_dataset(rng, ds), "ds3": G.mutate_dataset(rng, ds)}
+    case = {"ds": ds, "q": q, "ds2": G.mutate_dataset(rng, ds), "ds3": G.mutate_dataset(rng, ds)}
+    case.update(_gen_surface(rng, tier, ds, q))
+    return case
+
+
+# ------------------------------------------------------------------------------------------------- public surface
+# (design.d/C04.md "Surface audit"): how the query is handed to rdflib, on what kind of operand, how its IRIs are spelled.
+APIS = ["graph.query", "processor-instance", "result-class", "no-store-provided", "processor-direct", "evalQuery-direct",
+        "translate-direct"]
+SPELLINGS = ["pname-initNs", "pname-bound", "pname-declared", "relative-base", "relative-BASE"]
+NS = "http://e/"
+NS_ALT = "http://e/1"     # e:N then denotes <http://e/1N>: the same text means another query
+
+
+def _gen_surface(rng, tier, ds, q):
+    share = 0.25 if tier == "quick" else 0.5      # share of cases that leave the default on each axis
+    out = {"api": "graph.query", "operand": "default", "spelling": "iri"}
+    if rng.random() < share:
+        out["api"] = rng.choice(APIS[1:])
+    if rng.random() < share:
+        out["spelling"] = rng.choice(SPELLINGS)
+    if rng.random() < share:
+        empty_named = any(not ts for _n, ts in ds["named"])
+        if _needs_dataset(ds, q):
+            kinds = []
+            if ds.get("union") and not empty_named:
+                kinds.append("conjunctive")       # ConjunctiveGraph: default graph = union; it has no empty graphs
+            kinds.append("dataset-extra-call")    # the Dataset is also queried by an unrelated query first
+        else:
+            kinds = ["graph-simplememory", "graph-in-dataset", "aggregate", "graph-identified"]
+        out["operand"] = rng.choice(kinds)
+    return out
+
+
+def _spell(text, spelling):
+    """the same query with its IRIs written another way (the generator prints <http://e/N>)"""
+    import re
+    if spelling.startswith("pname"):
+        body = re.sub(r"<http://e/(\d+)>", r"e:\1", text)
+        return ("PREFIX e: <%s> " % NS) + body if spelling == "pname-declared" else body
+    if spelling.startswith("relative"):
+        body = re.sub(r"<http://e/(\d+)>", r"<\1>", text)
+        return ("BASE <%s> " % NS) + body if spelling == "relative-BASE" else body
+    return text
+
+
+def _remap_query(q):
+    """the query that the pname-spelled text denotes when e: is bound to NS_ALT (every IRI <http://e/N> becomes <http://e/1N>)"""
+    def walk(x):
+        if isinstance(x, list):
+            if len(x) == 2 and x[0] == "i" and isinstance(x[1], int):
+                return ["i", int("1" + str(x[1]))]
+            return [walk(y) for y in x]
+        if isinstance(x, dict):
+            return {k: walk(v) for k, v in x.items()}
+        return x
+    return walk(q)
+
+
+def _build_operand(kind, ds, q):
+    """-> (the object whose .query is called, fn(old, new) that changes its data in place)"""
+    from rdflib import ConjunctiveGraph, Dataset, Graph, URIRef
+    from rdflib.graph import ReadOnlyGraphAggregate
+    from rdflib.plugins.stores.memory import SimpleMemory
+    T3 = lambda t: tuple(G.to_rdflib_term(x) for x in t)  # noqa: E731
+    if kind == "conjunctive":
+        cg = ConjunctiveGraph()
+        for t in ds["default"]:
+            cg.default_context.add(T3(t))
+        for name, ts in ds["named"]:
+            for t in ts:
+                cg.get_context(G.to_rdflib_term(name)).add(T3(t))
+
+        def mut(old, new):
+            for ctx_, ots, nts in [(cg.default_context, old["default"], new["default"])] + [
+                    (cg.get_context(G.to_rdflib_term(n)), o, n2) for (n, o), (_m, n2) in zip(old["named"], new["named"])]:
+                for t in {G.T(t) for t in ots} - {G.T(t) for t in nts}:
+                    ctx_.remove(T3(t))
+                for t in {G.T(t) for t in nts} - {G.T(t) for t in ots}:
+                    ctx_.add(T3(t))
+        return cg, mut
+    if kind in ("graph-simplememory", "graph-identified", "graph-in-dataset"):
+        if kind == "graph-simplememory":
+            g = Graph(store=SimpleMemory())
+        elif kind == "graph-identified":
+            g = Graph(identifier=URIRef("http://e/777"))
+        else:
+            d = Dataset()
+            d.add((URIRef(NS + "0"), URIRef(NS + "10"), URIRef(NS + "0")))          # other graphs of the same store
+            d.graph(URIRef(NS + "20")).add((URIRef(NS + "1"), URIRef(NS + "11"), URIRef(NS + "2")))
+            g = d.graph(URIRef("http://e/778"))
+        for t in ds["default"]:
+            g.add(T3(t))
+        return g, lambda old, new: _mutate_in_place(g, old, new)
+    if kind == "aggregate":
+        g1, g2 = Graph(), Graph()
+
+        def fill(dsx):
+            ts = dsx["default"]
+            for k, t in enumerate(ts):
+                (g1 if k % 2 == 0 else g2).add(T3(t))
+                if k % 3 == 0:
+                    (g2 if k % 2 == 0 else g1).add(T3(t))       # overlap: the union holds it once
+        fill(ds)
+        agg = ReadOnlyGraphAggregate([g1, g2])
+
+        def mut(old, new):
+            g1.remove((None, None, None)); g2.remove((None, None, None)); fill(new)
+        return agg, mut
+    g = G.to_rdflib_dataset(ds) if _needs_dataset(ds, q) else G.to_rdflib_graph(ds)
+    return g, lambda old, new: _mutate_in_place(g, old, new)
+
+
+_PROC = {}
+
+
+def _parse_input_kind(text):
+    """parseQuery takes str | bytes | a text stream: which one a text is handed over as (direct entry points only)"""
+    return ("str", "bytes", "stream")[(len(text) // 2) % 3]
+
+
+def _call(api, target, query, kw):
+    """hand the query (text or prepared Query) to rdflib through one of the public entry points"""
+    from rdflib.plugins.sparql.processor import SPARQLProcessor, SPARQLResult
+
+    def proc():      # ONE processor object per graph object, used for every call of the case's history on that graph
+        if id(target) not in _PROC or _PROC[id(target)][0] is not target:
+            _PROC.clear()
+            _PROC[id(target)] = (target, SPARQLProcessor(target))
+        return _PROC[id(target)][1]
+    if api == "processor-instance":
+        return target.query(query, processor=proc(), **kw)
+    if api == "result-class":
+        return target.query(query, result=SPARQLResult, **kw)
+    if api == "no-store-provided":
+        return target.query(query, use_store_provided=False, **kw)
+    if api in ("processor-direct", "evalQuery-direct", "translate-direct"):
+        ns = kw.get("initNs") or dict(target.namespaces())
+        if api == "processor-direct":
+            return SPARQLResult(proc().query(query, {}, ns, **({"base": kw["base"]} if "base" in kw else {})))
+        from rdflib.plugins.sparql.algebra import translateQuery
+        from rdflib.plugins.sparql.evaluate import evalQuery
+        from rdflib.plugins.sparql.parser import parseQuery
+        if isinstance(query, str):
+            src = {"str": query, "bytes": query.encode("utf-8"), "stream": io.StringIO(query)}[_parse_input_kind(query)]
+            query = translateQuery(parseQuery(src), kw.get("base"), ns)
+        return SPARQLResult(evalQuery(target, query, {}, kw.get("base"))) if api == "evalQuery-direct" else target.query(query)
+    return target.query(query, **kw)
 
 
 def _safe_line(alg_sx):
@@ -167,16 +315,38 @@ def run_impl(case):
     st = dict(G.stats_of(q))
     text = G.to_sparql(q)
     rounds = [("", ds)] + ([("reeval-", case["ds2"]), ("other-", case["ds3"])] if "ds2" in case and "ds3" in case else [])
+    api, kind, spelling = case.get("api", "graph.query"), case.get("operand", "default"), case.get("spelling", "iri")
+    if kind == "aggregate" and spelling == "pname-bound":
+        spelling = "pname-initNs"              # a ReadOnlyGraphAggregate cannot bind prefixes
+    st["api_" + api] = 1
+    st["operand_" + kind] = 1
+    st["spelling_" + spelling] = 1
+    st["data_dataset" if _needs_dataset(ds, q) else "data_plain_graph"] = 1
+    if ds.get("union"):
+        st["data_default_union"] = 1
+    if any(not ts for _n, ts in ds["named"]):
+        st["data_empty_named_graph"] = 1
+    text_s = _spell(text, spelling)
+    kw = {}
+    if spelling == "pname-initNs":
+        kw["initNs"] = {"e": NS}
+    elif spelling == "relative-base":
+        kw["base"] = NS
     obs_pairs, viol = [], []
-    pq = g = None
+    pq = g = mut = None
     nonempty = False
+    use_text = (len(text) % 4 == 0) if api == "graph.query" else (len(text) % 2 == 0)
     for k, (tag0, dsk) in enumerate(rounds):
         ref = G.eval_query(dsk, q, st if k == 0 else None)
         ref_line = _canon(ref, star)
         try:
             if k == 0:
                 from rdflib.plugins.sparql import prepareQuery
-                pq = prepareQuery(text)
+                g, mut = _build_operand(kind, ds, q)
+                if spelling == "pname-bound":
+                    g.bind("e", NS)
+                pq = prepareQuery(text_s, **({"initNs": {"e": NS}} if spelling in ("pname-initNs", "pname-bound") else {}),
+                                  **({"base": NS} if spelling == "relative-base" else {}))
                 if text not in _ALG:
                     try:
                         _ALG[text] = G.encode_rdflib_algebra(pq.algebra)   # before evaluation (Expr.eval touches the tree)
@@ -185,24 +355,26 @@ def run_impl(case):
                     if os.getpid() != _MAIN_PID:
                         with open(_scratch_path(text), "w") as f:
                             f.write(_ALG[text])
-                # a plain Graph only when nothing needs a dataset (GRAPH on a plain Graph is an error by design in rdflib)
-                g = G.to_rdflib_dataset(ds) if _needs_dataset(ds, q) else G.to_rdflib_graph(ds)
+                if kind == "dataset-extra-call":
+                    g.query("SELECT * { ?s ?p ?o }").bindings      # an unrelated query on the same object first
                 # the two ways users run a query: a prepared Query object, or the text (parsed again by the processor)
-                if len(text) % 4:
-                    got = G.read_rdflib_result(g.query(pq))
-                    st["api_prepared"] = 1
-                else:
-                    got = G.read_rdflib_result(g.query(text))
+                if use_text:
+                    got = G.read_rdflib_result(_call(api, g, text_s, kw))
                     st["api_text"] = 1
+                    if api in ("evalQuery-direct", "translate-direct"):
+                        st["parse_input_" + _parse_input_kind(text_s)] = 1
                     if len(rounds) > 1:
-                        g.query(pq).bindings if q["form"] == "select" else None   # first use of the prepared object
+                        G.read_rdflib_result(_call(api, g, pq, {}))   # first use of the prepared object
+                else:
+                    got = G.read_rdflib_result(_call(api, g, pq, {}))
+                    st["api_prepared"] = 1
             elif k == 1:
-                _mutate_in_place(g, ds, dsk)            # same Graph / Dataset object, data changed
-                got = G.read_rdflib_result(g.query(pq))
+                mut(ds, dsk)                            # same Graph / Dataset object, data changed in place
+                got = G.read_rdflib_result(_call(api, g, pq, {}))
                 st["reeval_same_object"] = 1
             else:
-                g3 = G.to_rdflib_dataset(dsk) if _needs_dataset(ds, q) else G.to_rdflib_graph(dsk)
-                got = G.read_rdflib_result(g3.query(pq))    # another object with the same identifiers
+                g3, _m3 = _build_operand(kind, dsk, q)
+                got = G.read_rdflib_result(_call(api, g3, pq, {}))    # another object with the same identifiers
                 st["reeval_other_object"] = 1
             impl_line = _canon(got, star)
         except core.CaseTimeout:
@@ -214,6 +386,25 @@ def run_impl(case):
         if k == 0:
             got0, ref0 = got, ref
             nonempty = bool(ref.get("bag")) or bool(ref.get("ask")) or bool(ref.get("graph"))
+    # the same TEXT again with the prefix e: meaning another namespace, then with the first one again: three calls with
+    # one query string on one object, the keyword (or the graph's binding) varied in between
+    if spelling in ("pname-initNs", "pname-bound") and g is not None and "error" not in got0:
+        cur = rounds[1][1] if len(rounds) > 1 else ds
+        for step, (ns, qq) in enumerate([(NS_ALT, _remap_query(q)), (NS, q)]):
+            ref = G.eval_query(cur, qq)
+            try:
+                if spelling == "pname-bound":
+                    g.bind("e", ns, override=True, replace=True)
+                    got = G.read_rdflib_result(_call(api, g, text_s, {}))
+                else:
+                    got = G.read_rdflib_result(_call(api, g, text_s, {"initNs": {"e": ns}}))
+                impl_line = _canon(got, star)
+            except core.CaseTimeout:
+                raise
+            except Exception as e:
+                got, impl_line = {"error": type(e).__name__}, "error " + type(e).__name__
+            viol += _judge(qq, got, ref, impl_line, _canon(ref, star), star, "prefix%d-" % step)
+            st["history_same_text_other_prefix"] = 1
     st["nonempty"] = int(nonempty)
     st["queries"] = 1
     alg = _algebra_text(text)
@@ -362,4 +553,6 @@ def _kind_matcher(kind):
 # K3 ("listed in `_vars` but never bound by the sub-pattern"): the FILTER-expression case was repaired on main (C04-F14);
 # what is left of it (un-projected sub-select variables, variables of a nested OPTIONAL's condition) is the same defect
 # as K1 — `_vars` is not the set of variables the solution at hand binds — and is matched with it.
-MATCHERS = {"vars_may_not_must": _kind_matcher({"K1", "K3"}), "vars_values_missing": _kind_matcher({"K2"})}
+MATCHERS = {"vars_may_not_must": _kind_matcher({"K1", "K3"}), "vars_values_missing": _kind_matcher({"K2"}),
+            # C04-K4: EXISTS patterns outside `Alg.existsOK` (nested-group filter / OPTIONAL condition on an outer variable)
+            "exists_not_substitution": _kind_matcher({"exists-unsupported"})}
